@@ -1,11 +1,252 @@
 import Driver.Json
+import OomdModel.Log
 
-/-! Driver glue for engine `log` (stub: not built yet). -/
+/-! Driver glue for engine `log` (C20): scenario + trace of the real logger in, verdict out.
+
+`holds`   – the clauses of C20 evaluated on what the sink, the kmsg file and the backlog marks show,
+            with an oracle written from the property text (which ops print a line), not from the model.
+`accepts` – the model can produce the trace: the LogStream layer of the model offers exactly the lines the
+            oracle expects; with trace hooks the recorded linearisation is replayed step by step through
+            `OomdModel.Log.replay` and must end in a state whose sink equals the observed one; without hooks
+            only the model's invariants that are visible from outside are checked. -/
 namespace Driver.Log
-open Lean
+open Lean OomdModel.Log
+
+structure Op where
+  kind : String
+  n : Nat
+deriving Repr
+
+/-- sink entry -/
+inductive Ent
+  | line (tid : Nat) (seq : Int) (n : Nat)
+  | drop (count n : Nat)
+  | junk (n : Nat)
+  | flush
+
+def parseEnt (j : Json) : Ent :=
+  match j with
+  | Json.arr a =>
+    Ent.line (asNat (a.getD 0 Json.null)) (asInt (a.getD 1 Json.null)) (asNat (a.getD 2 Json.null))
+  | _ =>
+    if jhas j "f" then Ent.flush
+    else if jhas j "d" then Ent.drop (jnat j "d") (jnat j "n")
+    else Ent.junk (jnat j "n")
+
+def entLen : Ent → Nat
+  | .line _ _ n => n
+  | .drop _ n => n
+  | .junk n => n
+  | .flush => 0
+
+def tinyLimit : Nat := 20
+
+/-- the bound the property text names ("never exceed 1 MiB in total"); `holds` uses this literal, `accepts` the
+model's `maxSize` (regenerated from Log.h) -/
+def propertyCap : Nat := 1048576
+
+/-- the oracle: which ops of one thread print a line (seq, size), which ask for a kmsg record; from the
+property text: DISABLE silences the calling thread until ENABLE, a statement starting with ENABLE is printed,
+`debugLog` called directly is not subject to silencing, kmsg records are never suppressed -/
+def expectedOf (ops : List Op) : List (Nat × Nat) × List (Nat × Nat) × List Nat :=
+  let rec go (i : Nat) (en : Bool) (ops : List Op) (lines kmsg : List (Nat × Nat)) (sil : List Nat) :
+      List (Nat × Nat) × List (Nat × Nat) × List Nat :=
+    match ops with
+    | [] => (lines.reverse, kmsg.reverse, sil.reverse)
+    | o :: r =>
+      match o.kind with
+      | "log" => if en then go (i + 1) en r ((i, o.n) :: lines) kmsg sil else go (i + 1) en r lines kmsg (i :: sil)
+      | "raw" => go (i + 1) en r ((i, o.n) :: lines) kmsg sil
+      | "dis" => go (i + 1) false r lines kmsg sil
+      | "en" => go (i + 1) true r lines kmsg sil
+      | "dislog" => go (i + 1) false r lines kmsg (i :: sil)
+      | "enlog" => go (i + 1) true r ((i, o.n) :: lines) kmsg sil
+      | "mix" => go (i + 1) true r ((i, o.n) :: lines) kmsg sil
+      | "kmsg" => go (i + 1) en r lines ((i, o.n) :: kmsg) sil
+      | _ => go (i + 1) en r lines kmsg sil
+  go 0 true ops [] [] []
+
+/-- the same ops as steps of the model -/
+def stepsOf (tid : Nat) (ops : List Op) : List Step :=
+  let rec go (i : Nat) (ops : List Op) (acc : List Step) : List Step :=
+    match ops with
+    | [] => acc.reverse
+    | o :: r =>
+      let st : List Step := match o.kind with
+        | "log" => [.stmt tid i [.text (o.n - 1)]]
+        | "raw" => [.debugLog ⟨tid, i, o.n⟩]
+        | "dis" => [.stmt tid i [.disable]]
+        | "en" => [.stmt tid i [.enable]]
+        | "dislog" => [.stmt tid i [.disable, .text (o.n - 1)]]
+        | "enlog" => [.stmt tid i [.enable, .text (o.n - 1)]]
+        | "mix" => [.stmt tid i [.disable, .text 16, .enable, .text (o.n - 1)]]
+        | "kmsg" => [.kmsgWrite ⟨tid, i, o.n⟩]
+        | _ => []
+      go (i + 1) r (st ++ acc)
+  go 0 ops []
+
+/-- observed records of a thread are a subsequence of the expected lines (big ones matched by sequence
+number and size, tiny anonymous ones by size) -/
+def subseq : List (Int × Nat) → List (Nat × Nat) → Bool
+  | [], _ => true
+  | _ :: _, [] => false
+  | (q, n) :: os, (eq, en) :: es =>
+    let m := if q < 0 then (en < tinyLimit && en == n) else (q == Int.ofNat eq && en == n)
+    if m then subseq os es else subseq ((q, n) :: os) es
+
+def increasing : List Int → Bool
+  | a :: b :: r => a < b && increasing (b :: r)
+  | _ => true
+
+def hasDup : List Int → Bool
+  | [] => false
+  | a :: r => r.contains a || hasDup r
+
+def sumNat (l : List Nat) : Nat := l.foldl (· + ·) 0
+
+/-- events of the trace hooks as observations for `replay` -/
+def parseObs (j : Json) : Option Obs :=
+  match j with
+  | Json.arr a =>
+    let g (i : Nat) : Nat := asNat (a.getD i Json.null)
+    match asStr (a.getD 0 Json.null) with
+    | "e" => some (.enq ⟨g 1, g 2, g 3⟩ true)
+    | "d" => some (.enq ⟨g 1, g 2, g 3⟩ false)
+    | "s" => some (.swap (g 1) (g 2) (g 3 != 0))
+    | "c" => some .cleared
+    | "r" => some .release
+    | "x" => some .stop
+    | _ => none
+  | _ => none
+
+/-- model sink against observed sink: lines in order (sequence number compared when the record carries one)
+and drop reports with their counts, flushes ignored -/
+def sinkMatches : List Out → List Ent → Bool
+  | outs, .flush :: es => sinkMatches outs es
+  | [], [] => true
+  | .line m :: os, .line t q n :: es =>
+    m.tid == t && m.size == n && (q < 0 || q == Int.ofNat m.seq) && sinkMatches os es
+  | .report k :: os, .drop c _ :: es => k == c && sinkMatches os es
+  | _, _ => false
+
+structure PerThread where
+  silHit : Bool
+  unknown : Bool
+  dup : Bool
+  ord : Bool
+  sub : Bool
+  nExp : Nat
+
+def checkThread (e : List (Nat × Nat) × List (Nat × Nat) × List Nat) (o : List (Int × Nat)) : PerThread :=
+  let lines := e.1
+  let sil := e.2.2
+  let big : List Int := o.filterMap fun (q, _) => if q >= 0 then some q else none
+  { silHit := big.any fun q => sil.contains q.toNat
+    unknown := o.any fun (q, n) => q >= 0 && !(sil.contains q.toNat) && !(lines.contains (q.toNat, n))
+    dup := hasDup big
+    ord := increasing big
+    sub := subseq o lines
+    nExp := lines.length }
+
+def variantName (v : Variant) : String :=
+  if v == fixed then "fixed" else if v == fix25only then "release-at-swap" else "unfixed"
 
 def handle (j : Json) : Json :=
-  Json.mkObj [("id", Json.str (jstr (jobj j "s") "id")), ("error", Json.str "engine log not implemented")]
+  let sc := jobj j "s"
+  let tr := jobj j "t"
+  let id := jstr sc "id"
+  let oc := jstr tr "outcome"
+  if oc != "ok" then
+    verdict id true true [] ("outcome:" ++ oc)
+  else
+  let prods : List (List Op) := (jarr sc "producers").map fun p => (asArr p).map fun o => ⟨jstr o "k", jnat o "n"⟩
+  let done : List Nat := (jarr tr "done").map asNat
+  let np := prods.length
+  -- ops actually executed (shutdown may cut a script)
+  let execd : List (List Op) := (List.range np).map fun t => (prods.getD t []).take (done.getD t 0)
+  let exp := execd.map expectedOf
+  let sink : List Ent := (jarr tr "sink").map parseEnt
+  let recs : List (Nat × Int × Nat) := sink.filterMap fun e => match e with | .line t q n => some (t, q, n) | _ => none
+  let obsOf (t : Nat) : List (Int × Nat) := recs.filterMap fun (tt, q, n) => if tt == t then some (q, n) else none
+  -- bytes that are neither a whole logged line nor a drop report are not a violation by themselves (the property
+  -- does not forbid extra output); a torn or corrupted line shows up as a missing line below
+  let junkBytes := sumNat (sink.map fun e => match e with | .junk n => n | _ => 0)
+  let vJunk : List String := []
+  -- clause: silenced lines absent; only logged lines present; once; in order
+  let perThread : List PerThread := (List.range np).map fun t =>
+    checkThread (exp.getD t ([], [], [])) (obsOf t)
+  let foreign := recs.any fun (t, _, _) => t >= np
+  let vSil := if perThread.any (·.silHit) then ["silencing_per_thread"] else []
+  let vUnk := if foreign || perThread.any (·.unknown) then ["only_logged_lines"] else []
+  let vDup := if perThread.any (·.dup) then ["exactly_once"] else []
+  let vOrd := if perThread.any (fun x => !x.dup && !x.ord) then ["per_thread_fifo"] else []
+  let structural := vJunk ++ vSil ++ vUnk ++ vDup ++ vOrd
+  let vSub := if structural.isEmpty && perThread.any (fun x => !x.sub) then ["exactly_once"] else []
+  -- clause: what is missing has been reported as dropped, nothing else is missing
+  let nExp := sumNat (perThread.map (·.nExp))
+  let nObs := recs.length
+  let missing := nExp - nObs
+  let reportedN := sumNat (sink.filterMap fun e => match e with | .drop c _ => some c | _ => none)
+  let countable := structural.isEmpty && vSub.isEmpty
+  let vLost := if countable && reportedN < missing then ["flush_on_shutdown"] else []
+  let vOver := if countable && reportedN > missing then ["drops_reported"] else []
+  -- clause: nothing is dropped while everything ever logged fits under the cap
+  let totalBytes := sumNat (exp.map fun e => sumNat (e.1.map (·.2)))
+  let vEarly := if countable && missing > 0 && totalBytes ≤ propertyCap then ["drop_only_when_full"] else []
+  -- clause: backlog.  At each mark: bytes of lines logged before the mark that the sink had not yet taken
+  let offs : List (Ent × Nat) :=
+    (sink.foldl (fun (acc : List (Ent × Nat) × Nat) e => ((e, acc.2) :: acc.1, acc.2 + entLen e)) ([], 0)).1
+  let marks := jarr tr "marks"
+  let unwr : List Nat := marks.map fun mk =>
+    let pos := jnat mk "pos"
+    let dn := (jarr mk "done").map asNat
+    sumNat (offs.map fun (e, off) => match e with
+      | .line t q n =>
+        if q >= 0 && q.toNat < dn.getD t 0 && off + n > pos then off + n - (if off > pos then off else pos) else 0
+      | _ => 0)
+  let worst := unwr.foldl max 0
+  let vBack := if worst > propertyCap then ["backlog_bounded"] else []
+  -- clause: kmsg
+  let km : List (Int × Int × Nat) := (jarr tr "kmsg").map fun e =>
+    let a := asArr e
+    (asInt (a.getD 0 Json.null), asInt (a.getD 1 Json.null), asNat (a.getD 2 Json.null))
+  let kmOk := (List.range np).all fun t =>
+    let ke : List (Nat × Nat) := (exp.getD t ([], [], [])).2.1
+    let ko := km.filterMap fun (tt, q, n) => if tt == Int.ofNat t then some (q.toNat, n) else none
+    ko == ke
+  let kmForeign := km.any fun (t, _, _) => t < 0 || t >= Int.ofNat np
+  let vKm := if kmOk && !kmForeign then [] else ["kmsg_not_suppressed"]
+  let viol := structural ++ vSub ++ vLost ++ vOver ++ vEarly ++ vBack ++ vKm
+  let cls := match viol with
+    | [] => ""
+    | "backlog_bounded" :: _ =>
+      if worst > 2 * propertyCap then "backlog_bounded:cap-not-enforced" else "backlog_bounded:inflight-batch-not-counted"
+    | c :: _ => c
+  -- ---- accepts: the model as acceptor ----
+  let steps : List (List Step) := (List.range np).map fun t => stepsOf t (execd.getD t [])
+  let modelOffers : List (List Msg) := (List.range np).map fun t => threadOffers t true (steps.getD t [])
+  let layerOk := (List.range np).all fun t =>
+    let lines : List (Nat × Nat) := (exp.getD t ([], [], [])).1
+    let ke : List (Nat × Nat) := (exp.getD t ([], [], [])).2.1
+    (modelOffers.getD t []).map (fun m => (m.seq, m.size)) == lines
+      && (kmsgAsked (steps.getD t [])).map (fun m => (m.seq, m.size)) == ke
+  let hooks := jbool tr "hooks"
+  let obs := (jarr tr "events").filterMap parseObs
+  let tryVariant (v : Variant) : Bool :=
+    match replay v St.init obs with
+    | some s => s.pc == .exited && sinkMatches s.sink sink
+        && (List.range np).all fun t =>
+             s.offered.filter (·.tid == t) == modelOffers.getD t []
+    | none => false
+  let matching := if hooks then [fixed, fix25only, unfixed].filter tryVariant else []
+  let replayOk := !hooks || (tryVariant fixed && !jbool tr "events_lost")
+  let outsideOk := countable && reportedN == missing && worst ≤ maxSize && kmOk
+  let accepts := layerOk && replayOk && outsideOk
+  verdict id accepts viol.isEmpty viol cls
+    [("worst_unwritten", Json.num worst), ("missing", Json.num missing), ("reported", Json.num reportedN),
+     ("expected", Json.num nExp), ("delivered", Json.num nObs), ("hooks", Json.bool hooks),
+     ("variants", mkStrs (matching.map variantName)), ("layer_ok", Json.bool layerOk),
+     ("events", Json.num obs.length), ("junk_bytes", Json.num junkBytes)]
 
 end Driver.Log
 
